@@ -367,8 +367,7 @@ def rule_r5(ctx):
     ctx.r.floor(rid, n, 4, "propagation paths of re-raised socket errors")
 
 
-def rule_r6(ctx):
-    rid = "C13.R6"
+def rule_r6(ctx, rid="C13.R6"):
     ctx.r.rule(rid, "teardown releases and is idempotent: handle_close closes every buffer under the output lock, zeroes the counter, clears connected, then dispatcher.close; close() guards map removal and socket close")
     p = ctx.p
     lk = get_locks(p)
